@@ -613,6 +613,9 @@ func init() {
 	}
 }
 
+// harnessBudget: wall-clock limit per harness; exceeding it is inconclusive (never a pass)
+var harnessBudget = 15 * time.Minute
+
 type pathResult struct {
 	end string
 }
@@ -793,6 +796,9 @@ func runHarness(P *Program, H *Harness, workers int) (*stats, string) {
 				p.paths++
 				if p.paths > H.maxPaths && p.abort == "" {
 					p.abort = fmt.Sprintf("PATH-BUDGET: more than %d paths", H.maxPaths)
+				}
+				if p.abort == "" && time.Since(t0) > harnessBudget {
+					p.abort = fmt.Sprintf("TIME-BUDGET: harness not finished after %v (%d paths so far)", harnessBudget, p.paths)
 				}
 				// share work: keep the deepest items, give away the shallowest ones
 				if len(p.queue) < p.n && len(local) > 1 {
